@@ -539,10 +539,53 @@ fn record(ctx: &Ctx, st: &mut Stats, ops: &[Op], r: Res, count: bool, enumerated
     }
 }
 
+/// The empty history: a `Cpu` as `Cpu::new()` makes it (and again after the run loop's own initialisation), before any
+/// write or pin change. Whatever the emulator's initial latch, direction and pin levels are, DR must read what the
+/// statement's formula gives for them - power-on contents of the register file that disagree with the port's own
+/// state are a port that "reads something nobody wrote and no pin shows".
+fn power_on() -> Option<String> {
+    let r = guarded(|| {
+        let mut cpu = crate::cpu::Cpu::new();
+        for round in 0..2 {
+            for p in 1..=11u8 {
+                let ddr = cpu.bus.read(ddr_addr(p)).map_err(|e| e.to_string())?;
+                let dr = cpu.bus.read(dr_addr(p)).map_err(|e| e.to_string())?;
+                let (latch, pins) = (cpu.bus.io_port_latch[p as usize - 1], cpu.bus.io_port_in[p as usize - 1]);
+                let exp = (latch & ddr) | (pins & !ddr);
+                if dr != exp {
+                    return Err(format!("{}: port {:x} DR reads {:02x}; latch {:02x}, DDR {:02x}, pins {:02x} give {:02x}", if round == 0 { "fresh Cpu" } else { "after init_registers" }, p, dr, latch, ddr, pins, exp));
+                }
+            }
+            crate::cpu::verif_hooks::init_registers(&mut cpu).map_err(|e| e.to_string())?;
+        }
+        Ok(())
+    });
+    match r {
+        Ok(Ok(())) => None,
+        Ok(Err(m)) => Some(m),
+        Err(p) => Some(format!("panic: {}", p)),
+    }
+}
+
 pub fn run(ctx: &Ctx) -> i32 {
     let quirk_open = ctx.findings.is_open(P, QUIRK_SIG);
     if let Some(v) = &ctx.replay {
         let case = v.get("case").unwrap_or(v);
+        if case.get("kind").and_then(|k| k.as_str()) == Some("power-on") {
+            return match power_on() {
+                Some(m) => {
+                    let f = Failure { signature: "port power-on state".into(), detail: m, case: case.clone() };
+                    let p = write_replay(P, &f);
+                    println!("VIOLATION property={} replay={}", P, p.display());
+                    println!("  detail: {}", f.detail);
+                    1
+                }
+                None => {
+                    println!("replay {}: power-on state passes", P);
+                    0
+                }
+            };
+        }
         let Some(ops) = ops_from_json(case) else { return 2 };
         let mut emu = Emu::new(&ctx.base);
         return match judge_history(&mut emu, &ops, quirk_open) {
@@ -564,6 +607,13 @@ pub fn run(ctx: &Ctx) -> i32 {
         };
     }
     let tier = ctx.tier;
+    // (0) the empty history
+    let mut pstats = Stats::new();
+    pstats.evaluations += 1;
+    pstats.class("power-on: DR of all 11 ports against the emulator's own initial latch / direction / pins");
+    if let Some(m) = power_on() {
+        pstats.fail(Failure { signature: "port power-on state".into(), detail: m, case: json!({"kind": "power-on"}) });
+    }
     // (1) bounded-exhaustive: every history up to depth d over {DDR v, DR v, pins v}
     let set6 = [0x00u8, 0xff, 0x0f, 0xf0, 0x55, 0xaa];
     let set3 = [0x00u8, 0xff, 0xa5];
@@ -606,6 +656,7 @@ pub fn run(ctx: &Ctx) -> i32 {
         st
     });
     let mut stats = estats;
+    stats.merge(pstats);
     stats.exhaustive_subspaces.insert("per port: all histories of depth 4 (thorough: 5) over {DDR,DR,pins} x {00,FF,0F,F0,55,AA}".into(), 11 * 18u64.pow(tier.pick(4, 5)));
     stats.exhaustive_subspaces.insert("ports 1,5,B (thorough: all): all histories of depth 6 over {DDR,DR,pins} x {00,FF,A5}".into(), tier.pick(3, 11) * 9u64.pow(6));
 
